@@ -54,33 +54,72 @@ fn crc64(data: &[u8]) -> u64 {
     crc
 }
 
-/// Rewrite a Vfs snapshot as the version-1 image of the same state (VfsState v1 = options, root,
-/// next_super; v2 appends `mount_id_mappings`, a later version may append a one-byte `initialized`):
-/// [magic u64][data_version u16][VfsState][crc64]. Only possible when no per-mount mapping is stored
-/// (a v1 writer could not have had any): the appended part must be len = 256 followed by 256 `None` tags.
-fn to_v1(img: &[u8]) -> Option<Vec<u8>> {
+/// Outcome of rewriting a snapshot in the previous (version 1) format.
+enum V1 {
+    Image(Vec<u8>),
+    /// a per-mount mapping is stored: a version-1 writer could not have had any, nothing to test
+    NotExpressible,
+    /// the stream is not laid out as [magic u64][data_version u16][VfsState][crc64] with a VfsState we can walk
+    Unparsable(String),
+}
+
+/// Rewrite a Vfs snapshot as the version-1 image of the same state. VfsState v1 = options (34 bytes),
+/// root (Vec<u8>: u64 length + bytes), next_super (u8); v2 appends `mount_id_mappings`
+/// (u64 length, then per entry a tag byte and 12 bytes if Some), a later version may append a one-byte
+/// `initialized`. The stream is walked forward and every length is taken from the stream's own prefixes.
+fn to_v1(img: &[u8]) -> V1 {
+    const OPTS: usize = 8 + 8 + 1 + 1 + 12 + 4;
     let n = img.len();
-    if n < 8 + 2 + 8 + 265 {
-        return None;
-    }
-    let extra = match u16::from_le_bytes([img[8], img[9]]) {
-        2 => 0usize,
-        3 => 1usize,
-        _ => return None,
-    };
-    let tail = &img[n - 8 - 264 - extra..n - 8 - extra];
-    if u64::from_le_bytes(tail[..8].try_into().unwrap()) != 256 || tail[8..].iter().any(|b| *b != 0) {
-        return None;
+    let bad = |s: &str| V1::Unparsable(s.to_string());
+    if n < 10 + OPTS + 8 + 1 + 8 + 8 {
+        return bad("too short");
     }
     if crc64(&img[..n - 8]) != u64::from_le_bytes(img[n - 8..].try_into().unwrap()) {
-        return None;
+        return bad("crc");
     }
-    let mut out = img[..n - 8 - 264 - extra].to_vec();
+    let ver = u16::from_le_bytes([img[8], img[9]]);
+    let extra = match ver {
+        2 => 0usize,
+        3 => 1usize,
+        _ => return bad("data version"),
+    };
+    let body_end = n - 8;
+    let mut p = 10 + OPTS;
+    let rd = |p: usize| -> Option<u64> { img.get(p..p + 8).map(|b| u64::from_le_bytes(b.try_into().unwrap())) };
+    let rlen = match rd(p) {
+        Some(x) if (x as usize) < n => x as usize,
+        _ => return bad("root length"),
+    };
+    p += 8 + rlen + 1; // root bytes, next_super
+    let v1_end = p;
+    let cnt = match rd(p) {
+        Some(x) if x <= 65536 => x as usize,
+        _ => return bad("mapping table length"),
+    };
+    p += 8;
+    let mut some = false;
+    for _ in 0..cnt {
+        match img.get(p) {
+            Some(0) => p += 1,
+            Some(1) => {
+                some = true;
+                p += 13;
+            }
+            _ => return bad("mapping table entry"),
+        }
+    }
+    if p + extra != body_end {
+        return bad("trailing bytes");
+    }
+    if some {
+        return V1::NotExpressible;
+    }
+    let mut out = img[..v1_end].to_vec();
     out[8] = 1;
     out[9] = 0;
     let c = crc64(&out);
     out.extend_from_slice(&c.to_le_bytes());
-    Some(out)
+    V1::Image(out)
 }
 
 struct Be {
@@ -466,10 +505,17 @@ impl World {
         };
         if ver == 1 {
             match to_v1(&img) {
-                Some(v1) => img = v1,
-                None => {
+                V1::Image(v1) => img = v1,
+                V1::NotExpressible => {
                     // not expressible in the previous format (per-mount mappings present): the step is void
                     ev["ret"] = json!("skipped");
+                    self.emit(ev);
+                    return;
+                }
+                V1::Unparsable(why) => {
+                    // observed, judged by the trace spec: no previous-format image of this state can be presented
+                    ev["ret"] = json!("previous-format-image-not-constructible");
+                    ev["err"] = json!(why);
                     self.emit(ev);
                     return;
                 }
